@@ -5,6 +5,7 @@ import (
 	"encoding/json"
 	"fmt"
 	"os"
+	"os/exec"
 	"path/filepath"
 	"strconv"
 	"strings"
@@ -273,3 +274,34 @@ func FuzzCreate(f *testing.F) {
 }
 
 var _ = uni.Str
+
+// TestC10_KnownD11 re-confirms the open finding D11 (KNOWN_FINDINGS.txt) in a
+// child process: an unbudgeted parse of ~1M right-nested operators dies with a
+// stack overflow. The finding's input class (> 64 KiB) is excluded from every
+// generator by construction; this probe only reports whether it still reproduces.
+func TestC10_KnownD11(t *testing.T) {
+	if os.Getenv("VERIF_D11_CHILD") == "1" {
+		in := strings.Repeat("not ", 1000000) + "a == 1"
+		_, err := bexpr.CreateEvaluator(in)
+		fmt.Println("D11-CHILD-RETURNED", err != nil)
+		return
+	}
+	r := rec(t, "C10", c10Rule)
+	cmd := exec.Command(os.Args[0], "-test.run=^TestC10_KnownD11$")
+	cmd.Env = append(os.Environ(), "VERIF_D11_CHILD=1", "VERIF_STATS_DIR=")
+	out, err := cmd.CombinedOutput()
+	crashed := err != nil && strings.Contains(string(out), "stack overflow")
+	if crashed {
+		t.Logf("KNOWN-FINDING re-confirmed: unbudgeted parse of 1M nested `not` overflows the stack")
+	} else {
+		t.Logf("open finding D11 did not reproduce (child error: %v, returned: %v)", err, strings.Contains(string(out), "D11-CHILD-RETURNED"))
+	}
+	// with a budget the same input is rejected cleanly
+	in := strings.Repeat("not ", 1000000) + "a == 1"
+	ev, berr := bexpr.CreateEvaluator(in, bexpr.WithMaxExpressions(100000))
+	if ev != nil || berr == nil {
+		violation(t, "C10", "TestC10_KnownD11", &parseCase{InputQ: "1M x `not ` + a == 1, budget 100000"}, "budgeted parse of the D11 input: want (nil, error), got (%v, %v)", ev != nil, berr)
+	}
+	r.Case("d11", true, map[string]interface{}{"input": "strings.Repeat(\"not \", 1000000)+\"a == 1\"", "unbudgeted_child_crashed": crashed, "budgeted_rejected": true}, fmt.Sprintf("d11-reproduces:%v", crashed))
+	r.Case("d11-budget", true, nil)
+}
